@@ -164,24 +164,32 @@ mutual
           simp only [List.length_cons]; omega
         | interface k =>
           simp only [hid, Bool.and_eq_true] at hty
-          obtain ⟨hok1, _, _⟩ := absOkS_parts hty.2
-          obtain ⟨_, _, _, _, _, hin, _, _⟩ := absOk2_parts hok1
-          have := depth_abs c K (pfx ++ c.cs.camel (a.getD sf.name)) _ sub hin
-            (IH (pfx ++ c.cs.camel (a.getD sf.name)) true hty.1.2 hK)
-          have := renderType_length_pos c (pfx ++ c.cs.camel (a.getD sf.name))
-            (fieldsB c (pfx ++ c.cs.camel (a.getD sf.name)) (.interface k) sub)
-            (variantsV c (pfx ++ c.cs.camel (a.getD sf.name)) (.interface k) (marks c.q sub))
-          simp only [List.length_append]; omega
+          rcases absOkL_cases hty.2 with ⟨hok, hlg⟩ | ⟨g, rfl, hokB⟩
+          · obtain ⟨hok1, _, _⟩ := absOkS_parts hok
+            obtain ⟨_, _, _, _, _, hin, _, _⟩ := absOk2_parts hok1
+            have := depth_abs c K (pfx ++ c.cs.camel (a.getD sf.name)) _ sub hin
+              (IH (pfx ++ c.cs.camel (a.getD sf.name)) true hty.1.2 hK)
+            have := renderType_length_pos c (pfx ++ c.cs.camel (a.getD sf.name))
+              (fieldsB c (pfx ++ c.cs.camel (a.getD sf.name)) (.interface k) sub)
+              (variantsV c (pfx ++ c.cs.camel (a.getD sf.name)) (.interface k) (marks c.q sub))
+            simp only [hlg, List.length_append]; omega
+          · have := hK g (by simp [spreadIdss, spreadIds])
+            simp only [loneG_lone, depthsF, depthF, List.length_cons, List.length_nil]
+            omega
         | union k =>
           simp only [hid, Bool.and_eq_true] at hty
-          obtain ⟨hok1, _, _⟩ := absOkS_parts hty.2
-          obtain ⟨_, _, _, _, _, hin, _, _⟩ := absOk2_parts hok1
-          have := depth_abs c K (pfx ++ c.cs.camel (a.getD sf.name)) _ sub hin
-            (IH (pfx ++ c.cs.camel (a.getD sf.name)) true hty.1.2 hK)
-          have := renderType_length_pos c (pfx ++ c.cs.camel (a.getD sf.name))
-            (fieldsB c (pfx ++ c.cs.camel (a.getD sf.name)) (.union k) sub)
-            (variantsV c (pfx ++ c.cs.camel (a.getD sf.name)) (.union k) (marks c.q sub))
-          simp only [List.length_append]; omega
+          rcases absOkL_cases hty.2 with ⟨hok, hlg⟩ | ⟨g, rfl, hokB⟩
+          · obtain ⟨hok1, _, _⟩ := absOkS_parts hok
+            obtain ⟨_, _, _, _, _, hin, _, _⟩ := absOk2_parts hok1
+            have := depth_abs c K (pfx ++ c.cs.camel (a.getD sf.name)) _ sub hin
+              (IH (pfx ++ c.cs.camel (a.getD sf.name)) true hty.1.2 hK)
+            have := renderType_length_pos c (pfx ++ c.cs.camel (a.getD sf.name))
+              (fieldsB c (pfx ++ c.cs.camel (a.getD sf.name)) (.union k) sub)
+              (variantsV c (pfx ++ c.cs.camel (a.getD sf.name)) (.union k) (marks c.q sub))
+            simp only [hlg, List.length_append]; omega
+          · have := hK g (by simp [spreadIdss, spreadIds])
+            simp only [loneG_lone, depthsF, depthF, List.length_cons, List.length_nil]
+            omega
         | input k => simp [hid] at hty
     | .spread g, pfx, abs => by
       intro _ hK
@@ -276,10 +284,18 @@ mutual
           exact IH false hty.1.2 (fun g' hg' => absurd hg' (no_spread_of_sSels hty.1.2 g')) g hg
         | interface k =>
           simp only [hid, Bool.and_eq_true] at hty
-          exact IH true hty.1.2 (fragOkAny_of_abs (ty := .interface k) hty.1.1 hty.2) g hg
+          rcases absOkL_cases hty.2 with ⟨hok, hlg⟩ | ⟨g', rfl, hokB⟩
+          · exact IH true hty.1.2 (fragOkAny_of_abs (ty := .interface k) hty.1.1 hok) g hg
+          · simp only [spreadIdss, spreadIds, List.append_nil, List.mem_singleton] at hg
+            subst hg
+            exact .inr ⟨.interface k, hty.1.1, hokB⟩
         | union k =>
           simp only [hid, Bool.and_eq_true] at hty
-          exact IH true hty.1.2 (fragOkAny_of_abs (ty := .union k) hty.1.1 hty.2) g hg
+          rcases absOkL_cases hty.2 with ⟨hok, hlg⟩ | ⟨g', rfl, hokB⟩
+          · exact IH true hty.1.2 (fragOkAny_of_abs (ty := .union k) hty.1.1 hok) g hg
+          · simp only [spreadIdss, spreadIds, List.append_nil, List.mem_singleton] at hg
+            subst hg
+            exact .inr ⟨.union k, hty.1.1, hokB⟩
         | input k => simp [hid] at hty
     | .spread g', _ => by
       intro _ g hg hn
@@ -456,62 +472,72 @@ mutual
           simp [this]
         | interface k =>
           simp only [hid, Bool.and_eq_true] at hty hit ⊢
-          obtain ⟨hok1, hsp, _⟩ := absOkS_parts hty.2
-          obtain ⟨_, _, hobj, hne, _, hin, _, _⟩ := absOk2_parts hok1
-          refine ⟨absEnv_of M _ _ _ (variantsV_ne_nil c rfl rfl _ _ hne) (fun it h => hit it (by simp [h])), ?_, ?_⟩
-          · intro vt hvt
-            apply varEnv_of M hfr hfrB
-            intro it h
-            apply hit
-            have : it ∈ (vtsOfTy c.s (.interface k)).flatMap (fun vt =>
-                variantHead c (pfx ++ c.cs.camel (a.getD sf.name)) vt sub ++
-                  varItems c (pfx ++ c.cs.camel (a.getD sf.name)) vt sub) :=
-              List.mem_flatMap.mpr ⟨vt, hvt, List.mem_append_left _ h⟩
-            simp [this]
-          · refine IH _ true hty.1.2 (fun x hx it h => hit it ?_) (fun y hy => reach_step hr hy) ?_
-            · cases x with
-              | inline t isub =>
-                have ht' := hin t (List.mem_filterMap.mpr ⟨_, hx, rfl⟩)
-                have : it ∈ (vtsOfTy c.s (.interface k)).flatMap (fun vt =>
-                    variantHead c (pfx ++ c.cs.camel (a.getD sf.name)) vt sub ++
-                      varItems c (pfx ++ c.cs.camel (a.getD sf.name)) vt sub) :=
-                  List.mem_flatMap.mpr ⟨t, ht', List.mem_append_right _
-                    (mem_varItems hx (by simpa [varItem, allItemsS] using h))⟩
-                simp [this]
-              | field a' fid' sub' => simp [mem_itemsSs hx h]
-              | spread g => simp [mem_itemsSs hx h]
-              | typename => simp [mem_itemsSs hx h]
-            · intro g hg
-              exact fragEnvS_of_any M hfr hfrB g (reach_step hr hg) (fragOkAny_of_abs (ty := .interface k) hty.1.1 hty.2 g hg)
+          rcases absOkL_cases hty.2 with ⟨hok, hlg⟩ | ⟨g, rfl, hokB⟩
+          · simp only [hlg] at hit ⊢
+            obtain ⟨hok1, hsp, _⟩ := absOkS_parts hok
+            obtain ⟨_, _, hobj, hne, _, hin, _, _⟩ := absOk2_parts hok1
+            refine ⟨absEnv_of M _ _ _ (variantsV_ne_nil c rfl rfl _ _ hne) (fun it h => hit it (by simp [h])), ?_, ?_⟩
+            · intro vt hvt
+              apply varEnv_of M hfr hfrB
+              intro it h
+              apply hit
+              have : it ∈ (vtsOfTy c.s (.interface k)).flatMap (fun vt =>
+                  variantHead c (pfx ++ c.cs.camel (a.getD sf.name)) vt sub ++
+                    varItems c (pfx ++ c.cs.camel (a.getD sf.name)) vt sub) :=
+                List.mem_flatMap.mpr ⟨vt, hvt, List.mem_append_left _ h⟩
+              simp [this]
+            · refine IH _ true hty.1.2 (fun x hx it h => hit it ?_) (fun y hy => reach_step hr hy) ?_
+              · cases x with
+                | inline t isub =>
+                  have ht' := hin t (List.mem_filterMap.mpr ⟨_, hx, rfl⟩)
+                  have : it ∈ (vtsOfTy c.s (.interface k)).flatMap (fun vt =>
+                      variantHead c (pfx ++ c.cs.camel (a.getD sf.name)) vt sub ++
+                        varItems c (pfx ++ c.cs.camel (a.getD sf.name)) vt sub) :=
+                    List.mem_flatMap.mpr ⟨t, ht', List.mem_append_right _
+                      (mem_varItems hx (by simpa [varItem, allItemsS] using h))⟩
+                  simp [this]
+                | field a' fid' sub' => simp [mem_itemsSs hx h]
+                | spread g => simp [mem_itemsSs hx h]
+                | typename => simp [mem_itemsSs hx h]
+              · intro g hg
+                exact fragEnvS_of_any M hfr hfrB g (reach_step hr hg) (fragOkAny_of_abs (ty := .interface k) hty.1.1 hok g hg)
+          · simp only [loneG_lone] at hit ⊢
+            exact ⟨aliasEnv_of M hfr _ _ (hit _ (by simp)),
+              fragEnvS_of_B M hfr hfrB g (.interface k) hty.1.1 (reach_step hr (by simp)) hokB⟩
         | union k =>
           simp only [hid, Bool.and_eq_true] at hty hit ⊢
-          obtain ⟨hok1, hsp, _⟩ := absOkS_parts hty.2
-          obtain ⟨_, _, hobj, hne, _, hin, _, _⟩ := absOk2_parts hok1
-          refine ⟨absEnv_of M _ _ _ (variantsV_ne_nil c rfl rfl _ _ hne) (fun it h => hit it (by simp [h])), ?_, ?_⟩
-          · intro vt hvt
-            apply varEnv_of M hfr hfrB
-            intro it h
-            apply hit
-            have : it ∈ (vtsOfTy c.s (.union k)).flatMap (fun vt =>
-                variantHead c (pfx ++ c.cs.camel (a.getD sf.name)) vt sub ++
-                  varItems c (pfx ++ c.cs.camel (a.getD sf.name)) vt sub) :=
-              List.mem_flatMap.mpr ⟨vt, hvt, List.mem_append_left _ h⟩
-            simp [this]
-          · refine IH _ true hty.1.2 (fun x hx it h => hit it ?_) (fun y hy => reach_step hr hy) ?_
-            · cases x with
-              | inline t isub =>
-                have ht' := hin t (List.mem_filterMap.mpr ⟨_, hx, rfl⟩)
-                have : it ∈ (vtsOfTy c.s (.union k)).flatMap (fun vt =>
-                    variantHead c (pfx ++ c.cs.camel (a.getD sf.name)) vt sub ++
-                      varItems c (pfx ++ c.cs.camel (a.getD sf.name)) vt sub) :=
-                  List.mem_flatMap.mpr ⟨t, ht', List.mem_append_right _
-                    (mem_varItems hx (by simpa [varItem, allItemsS] using h))⟩
-                simp [this]
-              | field a' fid' sub' => simp [mem_itemsSs hx h]
-              | spread g => simp [mem_itemsSs hx h]
-              | typename => simp [mem_itemsSs hx h]
-            · intro g hg
-              exact fragEnvS_of_any M hfr hfrB g (reach_step hr hg) (fragOkAny_of_abs (ty := .union k) hty.1.1 hty.2 g hg)
+          rcases absOkL_cases hty.2 with ⟨hok, hlg⟩ | ⟨g, rfl, hokB⟩
+          · simp only [hlg] at hit ⊢
+            obtain ⟨hok1, hsp, _⟩ := absOkS_parts hok
+            obtain ⟨_, _, hobj, hne, _, hin, _, _⟩ := absOk2_parts hok1
+            refine ⟨absEnv_of M _ _ _ (variantsV_ne_nil c rfl rfl _ _ hne) (fun it h => hit it (by simp [h])), ?_, ?_⟩
+            · intro vt hvt
+              apply varEnv_of M hfr hfrB
+              intro it h
+              apply hit
+              have : it ∈ (vtsOfTy c.s (.union k)).flatMap (fun vt =>
+                  variantHead c (pfx ++ c.cs.camel (a.getD sf.name)) vt sub ++
+                    varItems c (pfx ++ c.cs.camel (a.getD sf.name)) vt sub) :=
+                List.mem_flatMap.mpr ⟨vt, hvt, List.mem_append_left _ h⟩
+              simp [this]
+            · refine IH _ true hty.1.2 (fun x hx it h => hit it ?_) (fun y hy => reach_step hr hy) ?_
+              · cases x with
+                | inline t isub =>
+                  have ht' := hin t (List.mem_filterMap.mpr ⟨_, hx, rfl⟩)
+                  have : it ∈ (vtsOfTy c.s (.union k)).flatMap (fun vt =>
+                      variantHead c (pfx ++ c.cs.camel (a.getD sf.name)) vt sub ++
+                        varItems c (pfx ++ c.cs.camel (a.getD sf.name)) vt sub) :=
+                    List.mem_flatMap.mpr ⟨t, ht', List.mem_append_right _
+                      (mem_varItems hx (by simpa [varItem, allItemsS] using h))⟩
+                  simp [this]
+                | field a' fid' sub' => simp [mem_itemsSs hx h]
+                | spread g => simp [mem_itemsSs hx h]
+                | typename => simp [mem_itemsSs hx h]
+              · intro g hg
+                exact fragEnvS_of_any M hfr hfrB g (reach_step hr hg) (fragOkAny_of_abs (ty := .union k) hty.1.1 hok g hg)
+          · simp only [loneG_lone] at hit ⊢
+            exact ⟨aliasEnv_of M hfr _ _ (hit _ (by simp)),
+              fragEnvS_of_B M hfr hfrB g (.union k) hty.1.1 (reach_step hr (by simp)) hokB⟩
         | input k => simp [hid] at hty
     | .spread g, pfx, abs => by
       intro _ _ _ hf
